@@ -13,6 +13,13 @@ static storage   the `data` definition is decoded to (bytes, relocations) and co
                  both reject => cproc must reject.  The reference model R (6.7.9 interpreter below) must agree too.
 automatic        the same declaration inside a function, dumped byte-wise (value bits only; pointers symbolically),
 (oracle D)       executed through ilexec (cproc -> il2c -> gcc + ASan), must equal the same image.
+variants         the same initialiser for a _Thread_local object and for a static compound literal must give the same
+                 image; aarch64 and riscv64 must give the x86_64 image (equal layouts for every type of the set).
+
+Keys: a difference that one of the triaged known-defect hypotheses (variants of R, see HYPOTHESES) reproduces exactly is
+filed under that root cause; every other difference gets a generic key <observation>/<type kind>-<how it differs>, so a
+new defect cannot hide under an old key.  Acceptance of what both witnesses reject is reported under accepts-invalid/...
+(property C10's business); compiler crashes under crash/<site>.
 """
 import itertools
 import os
